@@ -298,7 +298,7 @@ func (ex *Exec) intrinsic(fn *ssa.Function, args []Value) (Value, bool) {
 		}
 		// uninterpreted predicate of the bytes, one function per (pattern, length)
 		id := ex.eng.patternID(pat)
-		return p.UF(fmt.Sprintf("rx_%d_%d", id, len(bs)), 0, p.BigConcat(bs)), true
+		return ex.ufApply(fmt.Sprintf("rx_%d_%d", id, len(bs)), 0, bs), true
 	case "(*sync.RWMutex).Lock", "(*sync.Mutex).Lock":
 		ex.lockOp(args[0], "Lock")
 		return nil, true
@@ -479,6 +479,33 @@ func (ex *Exec) crcMessageOf(s *SliceV) crcMessage {
 	return crcMessage{msg: ex.sliceTerms(s)}
 }
 
+// ufApply models an uninterpreted function by Ackermann's reduction: every application is a fresh
+// variable (named after its argument terms), constrained against the earlier applications of the same
+// function on this path: equal arguments give equal results. No UF reaches the solver, so the queries
+// stay in QF_BV.
+func (ex *Exec) ufApply(name string, resW int, args []*Term) *Term {
+	p := ex.pool
+	h := fnv.New64a()
+	for _, t := range args {
+		fmt.Fprintf(h, "%d,", t.id)
+	}
+	val := p.Var(fmt.Sprintf("%s_%x", name, h.Sum64()), resW)
+	if ex.ackSeen[val] {
+		return val
+	}
+	ex.ackSeen[val] = true
+	for _, o := range ex.ackApps[name] {
+		ax := p.Implies(ex.termsEq(o.args, args), p.Bin("=", o.val, val))
+		if !ax.isConst {
+			ex.emitAssert(ax)
+			ex.modelValid = false
+		}
+	}
+	ex.ackApps[name] = append(ex.ackApps[name], ackApp{args: args, val: val})
+	ex.ackVars = append(ex.ackVars, val)
+	return val
+}
+
 func (ex *Exec) crcOf(m crcMessage) *Term {
 	p := ex.pool
 	n := len(m.msg) + m.zeros
@@ -495,30 +522,30 @@ func (ex *Exec) crcOf(m crcMessage) *Term {
 		raw[i] = byte(t.c)
 	}
 	var val *Term
-	switch {
-	case allc:
+	if allc {
 		val = p.BV(32, uint64(crc32.ChecksumIEEE(raw)))
-	case m.zeros > 0 || len(m.msg) > 256:
-		// long / partly lazy messages: one digest constant per distinct (length, materialised bytes)
+	} else {
+		// one digest variable per distinct (length, lazy zeros, materialised bytes)
 		h := fnv.New64a()
 		for _, t := range m.msg {
 			fmt.Fprintf(h, "%d,", t.id)
 		}
-		val = p.Var(fmt.Sprintf("crcL_%d_%d_%x", n, len(m.msg), h.Sum64()), 32)
-	default:
-		val = p.UF(fmt.Sprintf("crc_%d", n), 32, p.BigConcat(m.msg))
+		val = p.Var(fmt.Sprintf("crc_%d_%d_%x", n, len(m.msg), h.Sum64()), 32)
 	}
 	if _, seen := ex.crcMsg[val]; !seen {
 		ex.crcMsg[val] = m
-		// instance axioms against every earlier application on this path:
-		// equal digests imply equal length and equal bytes
+		if !allc {
+			ex.ackVars = append(ex.ackVars, val)
+		}
+		// instance axioms against every earlier digest on this path: the digests are equal exactly when
+		// the messages have the same length and the same bytes (function + collision freedom)
 		for _, o := range ex.crcApps {
 			if o.t == val {
 				continue
 			}
 			var ax *Term
 			if o.n == n && o.m.zeros == m.zeros && len(o.m.msg) == len(m.msg) {
-				ax = p.Implies(p.Bin("=", o.t, val), ex.termsEq(o.m.msg, m.msg))
+				ax = p.Bin("=", p.Bin("=", o.t, val), ex.termsEq(o.m.msg, m.msg))
 			} else {
 				ax = p.Not(p.Bin("=", o.t, val))
 			}
